@@ -157,3 +157,12 @@ Proof.
   destruct (from_text_rel_abs n co V B A Bo Ao Vn) as [H1 H2].
   cbn [parse_fields]. unfold as_name. rewrite H1, H2. reflexivity.
 Qed.
+
+(* a decision procedure for AllBytes, for examples *)
+Lemma AllBytes_dec (n : name) : forallb all_bytes n = true -> AllBytes n.
+Proof.
+  intros H. unfold AllBytes. apply Forall_forall. intros l Hl.
+  rewrite forallb_forall in H. specialize (H l Hl). unfold all_bytes in H.
+  apply Forall_forall. intros x Hx. rewrite forallb_forall in H. specialize (H x Hx).
+  unfold is_byte in H. apply andb_true_iff in H as [H1 H2]. apply Z.leb_le in H1. apply Z.ltb_lt in H2. lia.
+Qed.
